@@ -63,7 +63,14 @@ def configurations(pid, tmp):
 CAUGHT_BY = {}
 
 
-def _patches(pid):
+def _touched(patch):
+    try:
+        return {l.split('src/', 1)[1].strip() for l in open(patch) if l.startswith('+++ ') and 'src/' in l}
+    except OSError:
+        return set()
+
+
+def _patches(pid, files=None):
     items = []
     for d in sorted(glob.glob(os.path.join(VERIF, 'seeded', '*'))):
         mp = os.path.join(d, 'meta.json')
@@ -88,6 +95,9 @@ def _patches(pid):
         if os.path.exists(ad):
             pp = ad             # re-based on a later fix: commit of /repo
         rel = os.path.relpath(pp, VERIF)
+        # behaviour-preserving patches are relevant to a property when they touch a file its obligations live in
+        if files is not None and not (_touched(pp) & set(files)):
+            continue
         items.append((rel, pp, 'benign', True))
     return items
 
@@ -113,8 +123,8 @@ def _one_patch(args):
         shutil.rmtree(d, ignore_errors=True)
 
 
-def corpus(pid, tmp):
-    items = _patches(pid)
+def corpus(pid, tmp, files=None):
+    items = _patches(pid, files)
     res = {'changes_that_break_the_property': [], 'behaviour_preserving': [], 'summary': {}}
     with concurrent.futures.ThreadPoolExecutor(max_workers=8) as ex:
         for name, kind, own, outcome, rules in ex.map(_one_patch, [(pid, n, p, k, o, tmp) for n, p, k, o in items]):
@@ -201,7 +211,7 @@ def run(ctx):
         files = sorted({i['where'].split(':')[0].replace('src/', '') for i in ctx.instances if i['where'].startswith('src/')})
         rec = {
             'configurations': dict(cfg, release={'rc': 'decided in-process', 'obligations': len(ctx.instances)}),
-            'checker_validation': corpus(pid, tmp),
+            'checker_validation': corpus(pid, tmp, files + [f.replace('.cc', '.h') for f in files]),
             'cross_reference_lints': lint(files, tmp),
         }
         rec['wall_s'] = round(time.time() - t0, 1)
